@@ -17,9 +17,9 @@ THEOREMS = {
     'C13_lower': 'case-lowering lower-cases the keys, keeps order and values',
     'C13_frame': 'an operation on one key leaves lookups of every other key unchanged',
     'C13_default_refines': 'the defaulting variant: every history (incl. get/setdefault/pop/popitem/update/clear/lower and the counting idiom d[k]+=n) yields the results of the defaulting reference map',
-    'C13_default_no_insert': 'the defaulting reference map is the same ordered map except that d[k] of an absent key yields the default and inserts nothing; every other operation is the plain map\'s',
+    'C13_default_no_insert': "[about the SPEC only, by unfolding OMap.stepD] the defaulting reference map is the same ordered map except that d[k] of an absent key yields the default and inserts nothing; every other operation is the plain map's; nothing about the model of the code -- that is C13_default_refines (all histories) and C13_default_absent",
     'C13_default_absent': 'on the model of the code, for an absent key: d[k] yields the factory value and changes nothing, get/pop yield the caller\'s default, pop without default raises, setdefault writes the caller\'s default',
-    'C13_set_refines': 'the case-insensitive set behaves like the reference set under every history of add/discard/remove/pop/clear/|=/-=/lookups/len/iteration/lower()',
+    'C13_set_refines': "the case-insensitive set yields the results of the reference set under every history of add/discard/remove/pop/clear/|=/-=/lookups/len/iteration/lower() from any initial list; the reference has the shape of the model's spelling table, so the content is: results agree and the set of lower keys stays the domain of the spelling table (thinner than the map refinement)",
     'C13_set_len_contains_iter_agree': 'the set\'s length, containment, iteration and remembered spellings agree with each other',
     'C13_lower_idempotent': 'the model of str.lower() the driver runs with (whole strings: per-character table, U+0130 expansion, final-sigma rule) is idempotent: the one hypothesis of the theorems above',
     'C13_refines_lowerPy': 'the three refinement theorems instantiated with that model of str.lower()',
@@ -546,4 +546,8 @@ LEVEL_NOTE = ('Trusted: Lean kernel; axioms propext/Classical.choice/Quot.sound 
               'order and the collections.abc mix-in methods are modelled, not verified; the order of a Python set is not modelled '
               '(the member pop() picks is taken from the implementation and checked to be a member); str.lower() is modelled on whole '
               'strings from tables regenerated from the interpreter, the proofs use only its idempotence (proved for the model). '
-              'repr() is checked on the implementation only (harness), not modelled; __eq__ and copying are not covered.')
+              'repr() is checked on the implementation only (harness), not modelled; __eq__ and copying are not covered.  '
+              'C13_default_no_insert is a statement about the reference map alone (it unfolds OMap.stepD); the model is tied to that '
+              'reference by C13_default_refines / C13_default_absent.  The set reference OSet is structurally the model\'s spelling table '
+              '(abstraction = field projection, OSet.add proved equal to the table update), so C13_set_refines mainly says that the two '
+              'fields of the set stay consistent and that every observable result is the reference\'s.')
